@@ -122,6 +122,9 @@ class Semaphore {
       PREPROCESS_VERIF_SEM_POST(this);
 #endif
       UTIL_THROW_IF(-1 == sem_post(&sem_), ErrnoException, "Could not post to semaphore");
+#ifdef PREPROCESS_VERIF
+      PREPROCESS_VERIF_SEM_POSTED(this);
+#endif
     }
 
   private:
